@@ -8,6 +8,7 @@ package main
 // invariant re-asserted on every back edge. Calls to functions under contract use only the callee's contract.
 
 import (
+	"path/filepath"
 	"os"
 	"runtime/debug"
 	"fmt"
@@ -112,6 +113,8 @@ type FnCtx struct {
 	quiet      int // >0: suppress obligations (spec evaluation of Go functions)
 	assump     map[string]bool
 	uncontr    map[string]bool
+	cut         bool // prefix-only: some path was cut at an unsupported construct
+	usedCallees map[string]bool // functions whose contract this function's proof relies on (modular calls)
 	hasAssigns bool
 	assignSet  *AssignSet
 	allocEntry Term
@@ -1406,7 +1409,27 @@ func (fr *Frame) execBlock(b *ssa.BasicBlock, st *State) {
 		if _, ok := ins.(*ssa.Phi); ok {
 			continue
 		}
-		fr.execInstr(ins, st)
+		if fr.top && fx.fc != nil && fx.fc.PrefixOnly {
+			// prefix-only: a construct outside the subset cuts the path here (everything after it on this path is
+			// not verified and is reported as such); the other paths are still verified
+			func() {
+				defer func() {
+					if r := recover(); r != nil {
+						ue, ok := r.(*UnsupportedError)
+						if !ok || ue.msg != fx.fc.PrefixCut {
+							panic(r)
+						}
+						pos := fx.eng.prog.Fset.Position(ins.Pos())
+						fx.trusted[fmt.Sprintf("%s: the path through %s:%d is cut at a construct outside the subset (%s); the code after it on that path, and every postcondition, is NOT verified", fx.topName(), filepath.Base(pos.Filename), pos.Line, ue.msg)] = true
+						fx.cut = true
+						st.guard = "false"
+					}
+				}()
+				fr.execInstr(ins, st)
+			}()
+		} else {
+			fr.execInstr(ins, st)
+		}
 		if st.guard == "false" {
 			break
 		}
@@ -1414,6 +1437,9 @@ func (fr *Frame) execBlock(b *ssa.BasicBlock, st *State) {
 	fr.exit[b] = st
 	// back edges
 	for _, s := range b.Succs {
+		if fx.cut && st.guard == "false" {
+			break
+		}
 		if isBackEdge(b, s) {
 			g, _ := fr.edgeGuard(b, s)
 			bs := st.clone()
@@ -2323,7 +2349,11 @@ func (fr *Frame) atReturn(ret *ssa.Return, vals []Val, st *State) {
 		fx.s.goal(func() {
 			t := fr.evalPost(c.E, vals, st)
 			fx.curClause = c
-			fx.oblige("post", fmt.Sprintf("%s/post/%s", name, c.Label), c.Text, st, t, ret.Pos(), fr.props())
+			props := fr.props()
+			if len(c.Props) > 0 {
+				props = append(append([]string{}, props...), c.Props...)
+			}
+			fx.oblige("post", fmt.Sprintf("%s/post/%s", name, c.Label), c.Text, st, t, ret.Pos(), props)
 			fx.curClause = nil
 		})
 	}
